@@ -73,45 +73,110 @@ Section Idx.
       + exact Ha.
   Qed.
 
-  (* DelegationByValIndex (0x71) is not rewritten: exact description of the result *)
-  Lemma idx71_stale : idx71_ok s -> forall v, del_of s from v <> None ->
-    in71 s' from v = true /\ del_of s' from v = None /\ in71 s' to v = false /\ del_of s' to v <> None.
+  (* DelegationByValIndex (0x71), rewritten since 048dbe3 *)
+  Lemma idx71_kept : idx71_ok s -> idx71_ok s'.
   Proof.
-    intros H v D. unfold in71. rewrite (mv_i71 _ _ _ _ M). rewrite !(mv_del _ _ _ _ M), sel_to, sel_from by exact Hft.
-    pose proof (H (from, v)) as Hf. pose proof (H (to, v)) as Ht. rewrite Hf, Ht. unfold shas.
-    change (sget k2_eqb (from, v) (dels (stake s))) with (del_of s from v).
-    change (sget k2_eqb (to, v) (dels (stake s))) with (del_of s to v). rewrite to_no_del.
-    destruct (del_of s from v); [|congruence]. cbn. repeat split; congruence.
+    intros H [a v]. specialize (H (a, v)) as Ha. pose proof (H (to, v)) as Ht. pose proof (H (from, v)) as Hf.
+    change (shas k2_eqb (a, v) (idx71 (stake s'))) with (in71 s' a v). rewrite (mv_i71 _ _ _ _ M).
+    unfold shas at 1. change (sget k2_eqb (a, v) (dels (stake s'))) with (del_of s' a v). rewrite (mv_del _ _ _ _ M).
+    unfold in71, has_del in *. unfold sel. destruct (a =? to).
+    - rewrite Ht. unfold shas at 2. change (sget k2_eqb (to, v) (dels (stake s))) with (del_of s to v). rewrite to_no_del.
+      rewrite orb_false_r. unfold del_of. symmetry. apply shas_option_map.
+    - destruct (a =? from).
+      + rewrite Hf. destruct (shas k2_eqb (from, v) (dels (stake s))); reflexivity.
+      + exact Ha.
   Qed.
 
-  Lemma idx71_exact : idx71_ok s -> (idx71_ok s' <-> forall v, del_of s from v = None).
+  (* UnbondingIndex (0x38), rewritten since 048dbe3 *)
+  Hypothesis W : wfP s.
+
+  Lemma writes_inv : forall id k, In (id, k) (unb_writes from to s) ->
+    (exists kv e, In kv (ubds (stake s)) /\ fst (fst kv) = from /\ In e (u_entries (snd kv)) /\
+                  id = ue_id e /\ k = UKubd to (u_val (snd kv))) \/
+    (exists kv e, In kv (reds (stake s)) /\ fst (fst kv) = from /\ In e (r_entries (snd kv)) /\
+                  id = re_id e /\ k = UKred to (r_src (snd kv)) (r_dst (snd kv))).
   Proof.
-    intros H. split.
-    - intros H' v. destruct (del_of s from v) eqn:E; [|reflexivity]. exfalso.
-      destruct (idx71_stale H v) as (A & B & _); [congruence|]. specialize (H' (from, v)).
-      unfold in71 in A. rewrite A in H'. unfold shas in H'. change (sget k2_eqb (from, v) (dels (stake s'))) with (del_of s' from v) in H'.
-      rewrite B in H'. discriminate.
-    - intros N [a v]. rewrite (mv_i71 _ _ _ _ M), (H (a, v)). unfold shas.
-      change (sget k2_eqb (a, v) (dels (stake s'))) with (del_of s' a v).
-      change (sget k2_eqb (a, v) (dels (stake s))) with (del_of s a v).
-      rewrite (mv_del _ _ _ _ M). unfold sel. destruct (Z.eqb_spec a to) as [->|N1].
-      + rewrite N, to_no_del. reflexivity.
-      + destruct (Z.eqb_spec a from) as [->|N2]; [rewrite N|]; reflexivity.
+    intros id k I. unfold unb_writes in I. apply in_app_or in I. destruct I as [I|I]; [left | right];
+      apply in_concat in I; destruct I as [l [L I]]; apply in_map_iff in L; destruct L as [kv [E L]]; subst l;
+      apply in_map_iff in I; destruct I as [e [E I]]; inversion E; subst; apply filter_In in L; destruct L as [L F];
+      exists kv, e; repeat split; auto; unfold from_rec2, from_rec3 in F; apply Z.eqb_eq in F; exact F.
   Qed.
 
-  (* UnbondingIndex (0x38) is not rewritten either: it keeps pointing at the source's deleted key *)
-  Lemma idx38_stale : forall id v, sget Z.eqb id (unbidx (stake s)) = Some (UKubd from v) ->
-    sget Z.eqb id (unbidx (stake s')) = Some (UKubd from v) /\ ubd_of s' from v = None.
+  Lemma in_writes_ubd : forall kv e, In kv (ubds (stake s)) -> fst (fst kv) = from -> In e (u_entries (snd kv)) ->
+    In (ue_id e) (map fst (unb_writes from to s)).
   Proof.
-    intros id v H. rewrite (mv_unb _ _ _ _ M). split; [exact H|].
-    rewrite (mv_ubd _ _ _ _ M). apply sel_from. exact Hft.
+    intros kv e I F E. unfold unb_writes. rewrite map_app. apply in_or_app. left.
+    apply in_map_iff. exists (ue_id e, UKubd to (u_val (snd kv))). split; [reflexivity|].
+    apply in_concat. eexists. split; [apply in_map_iff; exists kv; split; [reflexivity|]|].
+    - apply filter_In. split; [exact I|]. unfold from_rec2. rewrite F. apply Z.eqb_refl.
+    - apply in_map_iff. exists e. auto.
   Qed.
 
-  Lemma idx38_stale_red : forall id v w, sget Z.eqb id (unbidx (stake s)) = Some (UKred from v w) ->
-    sget Z.eqb id (unbidx (stake s')) = Some (UKred from v w) /\ red_of s' from v w = None.
+  Lemma in_writes_red : forall kv e, In kv (reds (stake s)) -> fst (fst kv) = from -> In e (r_entries (snd kv)) ->
+    In (re_id e) (map fst (unb_writes from to s)).
   Proof.
-    intros id v w H. rewrite (mv_unb _ _ _ _ M). split; [exact H|].
-    rewrite (mv_red _ _ _ _ M). apply sel_from. exact Hft.
+    intros kv e I F E. unfold unb_writes. rewrite map_app. apply in_or_app. right.
+    apply in_map_iff. exists (re_id e, UKred to (r_src (snd kv)) (r_dst (snd kv))). split; [reflexivity|].
+    apply in_concat. eexists. split; [apply in_map_iff; exists kv; split; [reflexivity|]|].
+    - apply filter_In. split; [exact I|]. unfold from_rec3. rewrite F. apply Z.eqb_refl.
+    - apply in_map_iff. exists e. auto.
+  Qed.
+
+  Lemma existsb_id_in {E} (idf : E -> Z) : forall (l : list E) id,
+    existsb (fun e => idf e =? id) l = true <-> exists e, In e l /\ idf e = id.
+  Proof.
+    intros l id. rewrite existsb_exists. split; intros [e [I X]]; exists e; split; auto; apply Z.eqb_eq; exact X.
+  Qed.
+
+  Lemma idx38_kept : idx38_ok s -> idx38_ok s'.
+  Proof.
+    intros [Hu Hr]. split.
+    - intros id d v H. apply (mv_unb _ _ _ _ M) in H. destruct H as [H|[N H]].
+      + apply writes_inv in H. destruct H as [(kv & e & I & F & E & -> & K)|(kv & e & _ & _ & _ & _ & K)]; [|discriminate].
+        inversion K. subst d v. pose proof (wf_ubdk s W kv I) as Kk.
+        destruct kv as [[a r] u]. cbn [fst snd] in *.
+        assert (Kr : r = u_val u) by (inversion Kk; reflexivity). subst r a.
+        assert (G : ubd_of s from (u_val u) = Some u).
+        { unfold ubd_of. apply (in_sget_nodup k2_eqb k2_eqb_ok); [apply (wf_ubds s W) | exact I]. }
+        exists (to_ubd to u). split.
+        * rewrite (mv_ubd _ _ _ _ M), sel_to, G. reflexivity.
+        * cbn. apply (existsb_id_in ue_id). exists e. auto.
+      + destruct (Hu id d v H) as [u [G X]]. exists u. split; [|exact X].
+        rewrite (mv_ubd _ _ _ _ M). destruct (Z.eq_dec d to) as [->|Nt]; [rewrite to_no_ubd in G; discriminate|].
+        destruct (Z.eq_dec d from) as [->|Nf]; [|rewrite sel_other by assumption; exact G].
+        exfalso. apply N. apply (existsb_id_in ue_id) in X. destruct X as [e [Ie <-]].
+        apply (in_writes_ubd ((from, v), u) e); [apply (sget_in k2_eqb k2_eqb_ok); exact G | reflexivity | exact Ie].
+    - intros id d v w H. apply (mv_unb _ _ _ _ M) in H. destruct H as [H|[N H]].
+      + apply writes_inv in H. destruct H as [(kv & e & _ & _ & _ & _ & K)|(kv & e & I & F & E & -> & K)]; [discriminate|].
+        inversion K. subst d v w. pose proof (wf_redk s W kv I) as Kk.
+        destruct kv as [[a r] u]. cbn [fst snd] in *.
+        assert (Kr : r = (r_src u, r_dst u)) by (inversion Kk; reflexivity). subst r a.
+        assert (G : red_of s from (r_src u) (r_dst u) = Some u).
+        { unfold red_of. apply (in_sget_nodup k3_eqb k3_eqb_ok); [apply (wf_reds s W) | exact I]. }
+        exists (to_red to u). split.
+        * rewrite (mv_red _ _ _ _ M), sel_to, G. reflexivity.
+        * cbn. apply (existsb_id_in re_id). exists e. auto.
+      + destruct (Hr id d v w H) as [u [G X]]. exists u. split; [|exact X].
+        rewrite (mv_red _ _ _ _ M). destruct (Z.eq_dec d to) as [->|Nt]; [rewrite to_no_red in G; discriminate|].
+        destruct (Z.eq_dec d from) as [->|Nf]; [|rewrite sel_other by assumption; exact G].
+        exfalso. apply N. apply (existsb_id_in re_id) in X. destruct X as [e [Ie <-]].
+        apply (in_writes_red ((from, (v, w)), u) e); [apply (sget_in k3_eqb k3_eqb_ok); exact G | reflexivity | exact Ie].
+  Qed.
+
+  (* every moved entry can be found by its id, and the index names the target *)
+  Lemma moved_entries_indexed :
+    (forall kv e, In kv (ubds (stake s)) -> fst (fst kv) = from -> In e (u_entries (snd kv)) ->
+       exists k, sget Z.eqb (ue_id e) (unbidx (stake s')) = Some k /\ In (ue_id e, k) (unb_writes from to s)) /\
+    (forall kv e, In kv (reds (stake s)) -> fst (fst kv) = from -> In e (r_entries (snd kv)) ->
+       exists k, sget Z.eqb (re_id e) (unbidx (stake s')) = Some k /\ In (re_id e, k) (unb_writes from to s)).
+  Proof.
+    split; intros kv e I F E.
+    - pose proof (in_writes_ubd kv e I F E) as Iw. pose proof (mv_unb_has _ _ _ _ M _ Iw) as Hn.
+      destruct (sget Z.eqb (ue_id e) (unbidx (stake s'))) as [k|] eqn:G; [|congruence]. exists k. split; [reflexivity|].
+      destruct (mv_unb _ _ _ _ M _ _ G) as [X|[X _]]; [exact X | contradiction].
+    - pose proof (in_writes_red kv e I F E) as Iw. pose proof (mv_unb_has _ _ _ _ M _ Iw) as Hn.
+      destruct (sget Z.eqb (re_id e) (unbidx (stake s'))) as [k|] eqn:G; [|congruence]. exists k. split; [reflexivity|].
+      destruct (mv_unb _ _ _ _ M _ _ G) as [X|[X _]]; [exact X | contradiction].
   Qed.
 
   (* other delegators' queue entries: untouched, in place *)
